@@ -1,2 +1,88 @@
+/-!
+C14 — the recursion scheme of `ConfigCompiler::ResolveDependencies`, abstractly.
+
+Nodes are paths; `deps n` are the nodes whose resolution resolving `n` triggers (pending children, the
+targets and blocking ancestors of its references).  Before resolving `n` the code tests the resolve
+chain (`HasCircularDependencies`): if `n` is guarded it returns `false` at once, otherwise it pushes `n`
+and resolves the dependencies one after the other, returning at the first failure.  The only property
+of the guard that termination needs is that a node on the chain is guarded (a path is a prefix of
+itself).  The dependency map is arbitrary — cycles allowed.  `none` = the fuel ran out.
+-/
 namespace RimeModel.C14
+
+/-- sequential conjunction with early exit; `none` propagates -/
+def allOpt {α : Type} (g : α → Option Bool) : List α → Option Bool
+  | [] => some true
+  | d :: ds =>
+    match g d with
+    | none => none
+    | some false => some false
+    | some true => allOpt g ds
+
+def resolveAbs {α : Type} [DecidableEq α] (deps : α → List α) (guard : List α → α → Bool) :
+    Nat → List α → α → Option Bool
+  | 0, _, _ => none
+  | f + 1, chain, n =>
+    if guard chain n then some false
+    else allOpt (resolveAbs deps guard f (n :: chain)) (deps n)
+
+/-- nodes of the universe not yet on the chain: the termination measure -/
+def freeNodes {α : Type} [DecidableEq α] (u chain : List α) : Nat := (u.filter fun x => decide (x ∉ chain)).length
+
+theorem allOpt_isSome {α : Type} (g : α → Option Bool) :
+    ∀ ds : List α, (∀ d ∈ ds, (g d).isSome = true) → (allOpt g ds).isSome = true
+  | [], _ => rfl
+  | d :: ds, h => by
+    have hd := h d (by simp)
+    unfold allOpt
+    cases hg : g d with
+    | none => simp [hg] at hd
+    | some b =>
+      cases b
+      · rfl
+      · exact allOpt_isSome g ds (fun x hx => h x (by simp [hx]))
+
+theorem filter_length_le {α : Type} (p q : α → Bool) (hpq : ∀ x, p x = true → q x = true) :
+    ∀ l : List α, (l.filter p).length ≤ (l.filter q).length
+  | [] => by simp
+  | x :: xs => by
+    have ih := filter_length_le p q hpq xs
+    by_cases hp : p x = true
+    · simp [List.filter, hp, hpq x hp]; exact ih
+    · by_cases hq : q x = true
+      · simp [List.filter, hp, hq]; omega
+      · simp [List.filter, hp, hq]; exact ih
+
+theorem filter_length_lt {α : Type} (p q : α → Bool) (hpq : ∀ x, p x = true → q x = true) :
+    ∀ l : List α, (∃ x ∈ l, q x = true ∧ p x = false) → (l.filter p).length < (l.filter q).length
+  | [], h => by obtain ⟨x, hx, _⟩ := h; simp at hx
+  | y :: ys, h => by
+    have hle := filter_length_le p q hpq ys
+    obtain ⟨x, hx, hq, hp⟩ := h
+    by_cases hy : p y = true
+    · have hqy := hpq y hy
+      have : ∃ x ∈ ys, q x = true ∧ p x = false := by
+        rcases List.mem_cons.mp hx with e | e
+        · subst e; simp [hy] at hp
+        · exact ⟨x, e, hq, hp⟩
+      have ih := filter_length_lt p q hpq ys this
+      simp [List.filter, hy, hqy]; exact ih
+    · by_cases hqy : q y = true
+      · simp [List.filter, hy, hqy]; omega
+      · have : ∃ x ∈ ys, q x = true ∧ p x = false := by
+          rcases List.mem_cons.mp hx with e | e
+          · subst e; simp [hq] at hqy
+          · exact ⟨x, e, hq, hp⟩
+        have ih := filter_length_lt p q hpq ys this
+        simp [List.filter, hy, hqy]; exact ih
+
+theorem freeNodes_push {α : Type} [DecidableEq α] (u chain : List α) (n : α) (hu : n ∈ u) (hn : n ∉ chain) :
+    freeNodes u (n :: chain) < freeNodes u chain := by
+  unfold freeNodes
+  apply filter_length_lt
+  · intro x hx
+    simp at hx ⊢
+    exact hx.2
+  · exact ⟨n, hu, by simp [hn], by simp⟩
+
 end RimeModel.C14
